@@ -3,7 +3,7 @@
    the crop routine (C10Model.v) returns tables whose expansion is the k-prefix of the input's expansion. *)
 From V.lib Require Import Base.
 From V.c09 Require Import C09Model C09Spec C09Theorems.
-From V.c10 Require Import C10Model C10RlProofs C10CttsProofs C10StscProofs.
+From V.c10 Require Import C10Model C10RlProofs C10CttsProofs C10StscProofs C10ConsProofs C10EndProofs.
 
 (* the hypotheses are satisfiable: C09's 7-sample example table with a cut inside a run, a chunk and a ctts entry *)
 Example ex_crop : consistent ex_tb = true /\
@@ -68,3 +68,33 @@ Theorem C10_stsc_sample_chunks : forall tb, consistent tb = true -> forall k, 1 
     sumN (chunk_counts (sc_entries b') C') = k.
 Proof. exact stsc_crop_sample_chunks. Qed.
 Print Assumptions C10_stsc_sample_chunks.
+
+(* cropStblChildren on one track: the cropped tables are consistent again (so the output is decodable and every C09
+   theorem applies to it) and every per-sample list of the result is the k-prefix of the input's:
+   durations, sizes, composition offsets, sync samples, sdtp entries, chunk membership *)
+Example ex_new_offsets : new_offsets_ok ex_tb 5 [40; 50; 60] = true.
+Proof. vm_compute. reflexivity. Qed.
+Theorem C10_cropped_consistent : forall tb, consistent tb = true -> forall k offs, 1 <= k <= nsamples tb ->
+  new_offsets_ok tb k offs = true ->
+  exists tb', crop_tables tb k offs = Ok tb' /\ consistent tb' = true /\ nsamples tb' = k /\
+    durs tb' = firstnN (durs tb) k /\ sizes tb' = firstnN (sizes tb) k /\
+    (forall c, t_ctts tb = Some c -> exists c', t_ctts tb' = Some c' /\ ctos_of c' = firstnN (ctos_of c) k) /\
+    (forall l, t_stss tb = Some l -> t_stss tb' = Some (filter (fun y => y <=? k) l)) /\
+    (forall l, t_sdtp tb = Some l -> t_sdtp tb' = Some (firstnN l k)) /\
+    sample_chunks (counts_of tb') 1 = firstnN (sample_chunks (counts_of tb) 1) k /\
+    offsets tb' = offs.
+Proof. exact crop_tables_consistent. Qed.
+Print Assumptions C10_cropped_consistent.
+
+(* findTrakEnds: k = |{ i | decode_time i < track end time }|, the track end is the end of sample k and the last chunk
+   is the chunk of sample k (needs the stts deltas positive, as C09_sample_at_time) *)
+Theorem C10_k : forall tb, consistent tb = true ->
+  deltas_positive (t_stts_count tb) (t_stts_delta tb) = true -> forall ts et ets tet,
+  (if negb (ts =? u32 ets) then div_go (u64 (et * ts)) ets else Ok et) = Ok tet ->
+  tet < sumN (durs tb) ->
+  1 <= lenN (filter (fun s => s <? tet) (starts (durs tb) 0)) ->
+  exists k t d c cnt, k = lenN (filter (fun s => s <? tet) (starts (durs tb) 0)) /\ k <= nsamples tb /\
+    S_decode_time tb k = Some t /\ S_dur tb k = Some d /\ S_chunk_of tb k = Some c /\ S_chunk_count tb c = Some cnt /\
+    find_trak_end tb ts et ets = Ok (k, t + d, mkChunk c (S_first_in_chunk tb c) cnt).
+Proof. exact trak_end_correct. Qed.
+Print Assumptions C10_k.
